@@ -54,6 +54,8 @@ pub struct AlgoGen {
     pub keyings: usize,
     /// fraction (out of 1000) of cases whose node count sits on a power-of-two boundary (31..33, ..., 255..257)
     pub boundary_per_mille: u32,
+    /// one case in this many is a dense graph with thousands of edges (0 = never)
+    pub huge_one_in: u32,
 }
 
 impl AlgoGen {
@@ -68,6 +70,18 @@ impl AlgoGen {
         let (directed, multi, self_loops) = self.kinds[(idx as usize) % self.kinds.len()];
         let regime = *rng.pick(&self.regimes);
         let large = rng.chance(self.large_pct, 100);
+        let mut hr = Rng::new(seed, "config.huge");
+        if self.huge_one_in > 0 && hr.chance(1, self.huge_one_in) {
+            let regime = *hr.pick(&self.regimes);
+            let mut wr = Rng::new(seed, "workload.huge");
+            let (specs, ops) = gen::gen_dense_graph(&mut wr, directed, multi, self_loops, regime);
+            let mut case = Case::new(prop, seed, specs);
+            case.ops = ops;
+            case.params.put("source", J::s("dense graph with thousands of edges"));
+            case.params.put("regime", J::s(&format!("{:?}", regime)));
+            case.envs = gen::keyings(seed, self.keyings).into_iter().enumerate().map(|(i, k)| Env { keying: k, pool: if hr.chance(1, 8) { 1 } else { 2 + hr.below(15) }, sched: crate::core::rng::mix(seed, 0x5c + i as u64) }).collect();
+            return case;
+        }
         if rng.chance(self.boundary_per_mille, 1000) {
             let n = *rng.pick(&[31usize, 32, 33, 63, 64, 65, 127, 128, 129, 255, 256, 257]);
             let mut wr = Rng::new(seed, "workload.boundary");
@@ -186,11 +200,30 @@ pub fn sp_bits(m: &SpMap) -> String {
     s
 }
 
-pub struct SpCheck {
+pub struct SpCheck<'a> {
     pub first_only: bool,
     pub with_paths: bool,
     /// compare the path *sets* (strictly positive, exactly summable weights)
     pub sets: bool,
+    /// strictly positive weights whose sums are not exact: the oracle for the reading "path lengths are
+    /// accumulated floats, ties bit for bit"; the number of paths must fit this reading or the tolerant one
+    pub fo: Option<&'a DistOracle>,
+}
+
+/// number of returned paths under inexactly summable weights: all shortest paths under one of the two readings
+fn count_fits(o: &SpCheck, orc: &DistOracle, s: usize, t: usize, paths: &[Vec<String>], cap: usize) -> Result<(), String> {
+    if let (Some(fo), true, false) = (o.fo, o.with_paths, o.first_only) {
+        let uniq: BTreeSet<&Vec<String>> = paths.iter().collect();
+        if uniq.len() != paths.len() {
+            return Err(format!("duplicate paths in {:?}", paths));
+        }
+        let a = fo.sigma_from(s)[t];
+        let b = orc.sigma_from(s)[t];
+        if a <= cap as f64 && b <= cap as f64 && paths.len() as f64 != a && paths.len() as f64 != b {
+            return Err(format!("{} paths returned {:?}; there are {} shortest paths when lengths are compared as accumulated floats and {} when ties are taken at 1e-9", paths.len(), paths, a, b));
+        }
+    }
+    Ok(())
 }
 
 /// Is `got` a correct answer of a single-source search from `s` (no target, no cutoff)?
@@ -245,6 +278,9 @@ pub fn verify_single_source(snap: &Snap, orc: &DistOracle, s: usize, got: &SpMap
         }
         if o.first_only && paths.len() != 1 {
             return Err(("first_only returned != 1 path".into(), format!("{:?} -> {:?}: first_only=true returned {} paths: {:?}", sname, snap.names[t], paths.len(), paths)));
+        }
+        if let Err(d) = count_fits(o, orc, s, t, paths, sig_paths_cap) {
+            return Err(("not all shortest paths returned [inexactly summable weights]".into(), format!("{:?} -> {:?}: {}", sname, snap.names[t], d)));
         }
         if let (Some(sig), false) = (&sigma, o.first_only) {
             let uniq: BTreeSet<&Vec<String>> = paths.iter().collect();
@@ -309,6 +345,9 @@ pub fn verify_with_target(snap: &Snap, orc: &DistOracle, s: usize, t: usize, got
             }
             if o.first_only && paths.len() != 1 {
                 return Err(("first_only returned != 1 path (with target)".into(), format!("{:?} -> {:?}: {} paths", sname, tname, paths.len())));
+            }
+            if let Err(d) = count_fits(o, orc, s, t, paths, cap) {
+                return Err(("not all shortest paths to the target [inexactly summable weights]".into(), format!("{:?} -> target {:?}: {}", sname, tname, d)));
             }
             if let Some(sig) = &sigma {
                 let uniq: BTreeSet<&Vec<String>> = paths.iter().collect();
